@@ -78,9 +78,9 @@ fn check(spec: &[Vec<&str>], phrase: &str, a: &mut Acc) {
 pub fn run() -> i32 {
     let mut r = Report::new("C16");
     let thorough = r.thorough();
-    r.rule = "rule-group lists G0..Gn (n <= 2 quick, 3 thorough), every group one rule from a 24-rule pool (plus two-rule groups in a second box), phrases of one and two pool words; trace_changes / get_trace_string / run compared with a reference that applies the groups one by one structurally: indices strictly increasing, exactly the changing groups reported, each reported state == plain application of groups 0..i, last state renders as run's output, Err iff run is Err, and the printed trace is the same sequence. Non-trivial = at least one group reported.".into();
+    r.rule = "rule-group lists G0..Gn (n <= 2 quick, 3 thorough), every group one rule from a 24-rule pool (plus two-rule groups in a second box), phrases of one and two pool words (two of them with an empty word, i.e. two spaces in a row); trace_changes / get_trace_string / run compared with a reference that applies the groups one by one structurally: indices strictly increasing, exactly the changing groups reported, each reported state == plain application of groups 0..i, last state renders as run's output, Err iff run is Err, and the printed trace is the same sequence. Non-trivial = at least one group reported.".into();
     let pool: Vec<&str> = super::c11::RULE_POOL.iter().copied().step_by(2).chain(["{p,t} > {b}", "% > a", "a > *", "% > * / _%"]).collect();
-    let phrases = ["pa", "ta.pi", "ˈpa.taˌki", "a", "paː sa.pa51", "t ta.pi", "pa pa", "ła.ta pa", "a ta.pi"];
+    let phrases = ["pa", "ta.pi", "ˈpa.taˌki", "a", "paː sa.pa51", "t ta.pi", "pa pa", "ła.ta pa", "a ta.pi", "pa  ta.pi", "a  pa sa.pa51"];
     let n = if thorough { 3 } else { 2 };
     let mut specs: Vec<Vec<Vec<&str>>> = vec![];
     for len in 1..=n { for idx in 0..pool.len().pow(len as u32) {
